@@ -558,3 +558,29 @@ def implicit_link_rule(r, ctx, rt, he):
             "the pair handed to Writes::from is not (linked, data): the data would be written before `linked`")
     r.check("SpecialAction::Linked(id)" in describe_operand(he, sp[0].args[1]), "handle_event/linked-same-lane", sp[0].loc(), "the implicit Linked names the event's lane")
     return sp, pws
+
+
+SHORT_CIRCUIT = ("map_while", "take_while", "take", "skip", "skip_while", "step_by", "scan", "nth", "find", "find_map", "position", "any", "all", "try_for_each", "try_fold", "last", "next_back", "min", "max")
+
+
+def broadcast_visits_every_target(r, ctx, rt, he):
+    """handle_event hands an untargeted lane event to every remote linked to the lane (`links.linked_from(lane)`): some get a write at once, the others
+    have it queued behind their busy writer (push_write answers None for those). The iteration over the targets must not stop early: an adapter
+    that ends the iteration at the first `None` (map_while, take_while ..) starves every remote after the first busy one - they get neither a write
+    nor a queued item, although they are linked."""
+    lf = [c for c in he.calls if c.name == "linked_from"]
+    if len(lf) != 1:
+        raise AnchorMissing("handle_event: links.linked_from(lane)")
+    chain = []
+    for c in he.calls:
+        if (c.trait or "").endswith("iterator::Iterator") or c.name in ("iter", "into_iter", "zip"):
+            if c.args and any(x[0] == "call" and x[1] is lf[0] for x in he.sources(c.args[0], stop_at_calls=False)):
+                chain.append(c)
+    if len(chain) < 2:
+        raise AnchorMissing("handle_event: the iteration over the linked remotes (found %d adapter calls)" % len(chain))
+    cut = [c for c in chain if (c.via_name or c.name) in SHORT_CIRCUIT]
+    r.check(not cut, "handle_event/broadcast-visits-every-linked-remote", (cut[0].loc() if cut else where(he)), "the event is pushed to every remote of links.linked_from(lane) (%s)" % " -> ".join(c.name for c in chain),
+            "the iteration over the linked remotes is cut short by `%s`: it ends at the first remote whose writer is busy (push_write answers None after queueing), and the remotes after it get neither a write nor a queued item" % (cut[0].name if cut else ""))
+    pw = [c for c in he.calls if c.name == "push_write"] + [x for cb in rt.closures_of(he.defpath) for x in cb.calls if x.name == "push_write"]
+    r.check(bool(pw), "handle_event/broadcast-pushes", where(he), "every visited remote is handed the event through RemoteTracker::push_write")
+    return chain
